@@ -42,7 +42,7 @@ def run_one(sd):
 
 
 def main():
-    roots = sys.argv[1:] or [os.path.join(HERE, "seeded")]
+    roots = [os.path.abspath(r) for r in sys.argv[1:]] or [os.path.join(HERE, "seeded")]
     sds = seeds(roots)
     with ThreadPoolExecutor(max_workers=12) as ex:
         results = list(ex.map(run_one, sds))
